@@ -418,21 +418,31 @@ class Run:
             self.mism[stream] = (len(line), line, g, m)
 
     def flush(self):
+        """known findings are counted per case; of the rest the three shortest failing inputs and the
+        shortest differing case are reported (the evidence keeps all the counts)"""
         c = self.c
+        viol = []
         for key in sorted(self.fail, key=str):
             fid = key[2]
-            _, what, replay = self.fail[key]
+            ln, what, replay = self.fail[key]
             n = self.nfail[key]
             if fid is not None and c.known(fid) is not None:
-                for _i in range(n):          # counted per case under the known finding
+                for _i in range(n):
                     c.report(what, replay, finding_id=fid)
             else:
-                c.report("%s (%d cases of this kind)" % (what, n), replay)
-        for stream, (_, line, g, m) in sorted(self.mism.items()):
-            c.report("implementation and model of the code differ (%d cases in stream %s): `%s` implementation `%s` model `%s`"
-                     % (self.nfail[("mismatch", stream)], stream, line, g, m),
+                viol.append((ln, "%s (%d cases of this kind)" % (what, n), replay))
+        viol.sort(key=lambda x: (x[0], x[1]))
+        c.cov["property_failures_by_kind"] = {"%s | %s%s" % (k[0], k[1], k[2] or ""): n for k, n in self.nfail.items() if k[0] != "mismatch"}
+        for ln, what, replay in viol[:3]:
+            c.report(what + ("" if len(viol) <= 3 else " [%d kinds of failure in all, see evidence]" % len(viol)), replay)
+        if self.mism:
+            c.cov["model_differences_by_stream"] = {st: self.nfail[("mismatch", st)] for st in self.mism}
+            stream, (_, line, g, m) = min(self.mism.items(), key=lambda kv: kv[1][0])
+            c.report("implementation and model of the code differ (%d cases in %d streams; shortest, from stream %s): `%s` implementation `%s` model `%s`"
+                     % (sum(self.nfail[("mismatch", st)] for st in self.mism), len(self.mism), stream, line, g, m),
                      {"case": line, "implementation": g, "model": m, "stream": stream,
                       "rerun": "echo '%s' | bin/vharness ; echo '%s' | bin/oracle" % (line, line)})
+        return bool(viol or self.mism)
 
 
 def pct_out_of_float_domain(gi, mi):
@@ -566,6 +576,9 @@ def run(c):
             strings.append(("near-miss/" + kind, s))
             k = kind + " " + sym if kind != "delete" else "delete"
             kinds[k] = kinds.get(k, 0) + 1
+    for _ in range(25000 if quick else 500000):     # members only: the accepting paths, value and precision
+        m = gen_member(rng)
+        strings.append(("members", m + b"%" if rng.random() < 0.3 else m))
     for s in boundary_strings(rng, quick):
         strings.append(("boundary-2^63", s))
         strings.append(("boundary-2^63", s + b"%"))
@@ -684,7 +697,7 @@ def run(c):
     t0 = time.time()
     stab, stab_meta = [], []
     for line, (stream, v, e, text, pct), g, m in zip(reread, reread_meta, g2, m2):
-        c.count("re-read of printed text", 1)
+        c.count("re-read of printed text", 1, (text, pct))
         gpre = g.rsplit(FSEP, 1)[0]
         gi = items(gpre)
         if len(gi) != 3:
@@ -718,7 +731,7 @@ def run(c):
     log('judged re-read in %.1fs' % (time.time() - t0))
     g3 = run_go(stab)
     for (v, e, text, r, fid), g in zip(stab_meta, g3):
-        c.count("percentage text stability", 1)
+        c.count("percentage text stability", 1, text)
         it = items(g)
         t2 = bytes.fromhex(it[0][2][1:]) if it and len(it[0]) > 2 and it[0][1] == "x6f6b" else None
         if t2 != text:
@@ -754,12 +767,12 @@ def run(c):
             c.report("extracted model disagrees with vm_compute: %r" % (bad[0],), {"machinery": bad[0]}, no_input=True)
     except Exception as ex:
         c.report("vm_compute cross-check failed: %r" % ex, {"machinery": repr(ex)}, no_input=True)
-    R.flush()
+    found = R.flush()
     if not proved:
         pr = c.proof
         c.report("proof obligations of Props/C06.v no longer check: " + (pr.get("make_log") or pr.get("log", ""))[-900:],
                  {"theorem": "rocq/Props/C06.v", "failed_files": pr.get("failed_files"), "forbidden": pr.get("forbidden")},
-                 no_input=not (R.fail or R.mism))
+                 no_input=not found)
 
 
 def replay(path):
@@ -769,8 +782,22 @@ def replay(path):
         print("no case in replay:", r)
         return 1
     build_harness()
+    g = run_go([l], shards=1)[0]
     print("case:          ", l)
-    print("implementation:", run_go([l], shards=1)[0])
+    vs = parse_wire(l)
+    if len(vs) > 2 and isinstance(vs[2], bytes):
+        print("text:          ", vs[2])
+    print("implementation:", g)
     if " parse_field " not in l and " pct_parse_field " not in l:
         print("model:         ", run_oracle([l], shards=1)[0])
+    if vs[1] == b"all":
+        s = vs[2]
+        gi = items(g.rsplit(FSEP, 1)[0])
+        rs = [dec(x) for x in gi[:6]]
+        q = b'"' + s + b'"'
+        js = [judge_amount(s, rs[0]), judge_json(s, rs[1], False), judge_json(q, rs[2], False),
+              judge_pct(s, rs[3], True), judge_json(s, rs[4], True), judge_json(q, rs[5], True)]
+        for nm, rr, j in zip(NAMES, rs, js):
+            print("  %-34s %-28r %s" % (nm, rr, "property holds" if j is None else "PROPERTY FAILS: %s%s" % (j[0], " [finding %s]" % j[1] if j[1] else "")))
+        print("  in the published amount / percentage pattern:", member(s), bool(PCT_RE.match(s)), " the code's pattern says:", gi[6][0], gi[7][0])
     return 0
